@@ -20,3 +20,15 @@ Definition qrect_eqb (a b : qrect) : bool :=
 Definition ts_eqb' (a b : ts) : bool :=
   Qeqb (t_sx a) (t_sx b) && Qeqb (t_ky a) (t_ky b) && Qeqb (t_kx a) (t_kx b) &&
   Qeqb (t_sy a) (t_sy b) && Qeqb (t_tx a) (t_tx b) && Qeqb (t_ty a) (t_ty b).
+
+(* ---- extension round 4: names used by the filter-primitive slices of Gen/LeafObb.v ---- *)
+(* tiny_skia::Size as a pair; strict_num::PositiveF32::new over exact rationals: Some iff the number is not negative
+   (finiteness cannot fail here; the xq-domain copy of the same slices in Gen/LeafStyle.v covers NaN / overflow for C04) *)
+Definition sz_w (s : Q * Q) : Q := fst s.
+Definition sz_h (s : Q * Q) : Q := snd s.
+Definition positive_new (q : Q) : option Q := if Qleb 0 q then Some q else None.
+Definition Qsign_positive (q : Q) : bool := Qleb 0 q.
+(* usvg ApproxZeroUlps::approx_zero_ulps(n) on an f32 value q: q == 0, or q > 0 with bit pattern <= n, i.e. q <= n * 2^-149
+   (exact for every f32 value; a negative non-zero value is never approximately zero: the signs differ) *)
+Definition F32_MIN_SUBNORMAL : Q := 1 # (2 ^ 149).
+Definition Qapprox_zero (q ulps : Q) : bool := Qleb 0 q && Qleb q (ulps * F32_MIN_SUBNORMAL).
